@@ -298,6 +298,7 @@ def run(chk):
     r2 = chk.rule("R11.2", "closed forms: unsmoothed = beta*(T - T_bp) + intercept; smoothed adds |beta*k|*(exp((T - T_bp)/k) - 1); both equal intercept at T = T_bp", 4)
     r3 = chk.rule("R11.3", "decomposition: load_only = model - x[6]; heating where T <= x[0], cooling where T >= x[3]; x is the vector passed to the kernel (after smoothing)", 6)
     r4 = chk.rule("R11.4", "wrappers and fix_full_model_x keep the 7-vector in kernel order; fix swaps the three coefficient pairs together", 5)
+    r6 = chk.rule("R11.6", "no regime choice rests on the last bit: where the smoothing fractions use up the whole gap, the two shifted balance points handed to the kernel are one value, not two separately rounded ones", 2)
     r5 = chk.rule("R11.5", "get_smooth_coeffs: k = fraction * gap, balance points move inward by k, fractions renormalised when they sum to more than 1 (gap stays >= 0)", 4)
 
     fm = chk.repo.func(FM, "full_model")
@@ -449,12 +450,26 @@ def run(chk):
             got = [SymNum.lift(x).expr for x in res]
         except Unsupported as e:
             raise AnalysisError(f"get_smooth_coeffs uses an operation outside the modelled subset: {e}")
-        ok = len(got) == 4 and all(sp.simplify(g - w) == 0 for g, w in zip(got, want))
+        # the scenario with fractions summing to exactly 1 is judged modulo that constraint (pct_cdd_k = 1 - pct_hdd_k)
+        con = (lambda e: sp.sympify(e).subs(pc_s, 1 - ph_s)) if nm == "fractions-sum=1" else (lambda e: e)
+        ok = len(got) == 4 and all(sp.simplify(con(g) - con(w)) == 0 for g, w in zip(got, want))
         key = {"both-fractions-below-1%": "unsmoothed-below-1%", "fractions-sum>1": "renormalised-when-sum>1"}.get(nm, "k=fraction*gap")
         r5.require(ok, f"{gs.key}|{key}|{nm}", gs.where(),
                    f"get_smooth_coeffs ({nm}): expected [hdd_bp + k_h, k_h, cdd_bp - k_c, k_c] with k = fraction * (cdd_bp - hdd_bp)"
                    f"{' after dividing both fractions by their sum' if nm == 'fractions-sum>1' else ''}{' = [hdd_bp, 0, cdd_bp, 0]' if nm.startswith('both') else ''}; found {[str(sp.simplify(g)) for g in got]}",
                    sample={"scenario": nm, "result": [str(sp.simplify(g)) for g in got]})
         if ok and len(got) == 4:
-            new_gap = sp.simplify(got[2] - got[0])
-            r5.require(sp.simplify(new_gap - sp.simplify(want[2] - want[0])) == 0, f"{gs.key}|gap-shrinks-by-fractions|{nm}", gs.where(), f"shifted balance points: new gap {new_gap}")
+            new_gap = sp.simplify(con(got[2]) - con(got[0]))
+            r5.require(sp.simplify(new_gap - sp.simplify(con(want[2]) - con(want[0]))) == 0, f"{gs.key}|gap-shrinks-by-fractions|{nm}", gs.where(), f"shifted balance points: new gap {new_gap}")
+        # R11.6 exact tie: when the fractions use up the whole gap the two shifted balance points are one point.  The kernel orders its
+        # balance points with a strict comparison and swaps the heating and cooling coefficients when they come out reversed (R11.1), so
+        # two separately rounded computations of that one point must not be handed on: they have to be the same value (same object /
+        # structurally the same expression), otherwise which regime table applies is decided by the last bit.
+        if nm in ("fractions-sum=1", "fractions-sum>1") and len(res) == 4:
+            a_, b_ = res[0], res[2]
+            same = a_ is b_ or (SymNum.lift(a_).expr == SymNum.lift(b_).expr)
+            r6.require(same, f"{gs.key}|tie-is-one-value|{nm}", gs.where(),
+                       f"get_smooth_coeffs ({nm}): the shifted balance points are algebraically equal (gap {sp.simplify(SymNum.lift(b_).expr - SymNum.lift(a_).expr) if nm.endswith('>1') else '(cdd_bp - hdd_bp)*(1 - pct_hdd_k - pct_cdd_k) = 0'}) "
+                       f"but are computed separately as `{SymNum.lift(a_).expr}` and `{SymNum.lift(b_).expr}`; in floating point the second can land one ulp below the first, full_model's "
+                       "`cdd_bp < hdd_bp` swap then fires and the heating side is evaluated with the cooling slope and smoothing",
+                       sample={"scenario": nm, "hdd_bp'": str(SymNum.lift(a_).expr), "cdd_bp'": str(SymNum.lift(b_).expr)})
